@@ -52,9 +52,18 @@ struct Sol {
   // leaving the admissible set (nullptr: default_special_ok); coordinates from index zero_coord_from on may be set to exactly 0 (-1: none)
   int (*special_ok)(const std::string& name) = nullptr;   // 0: no, 1: zero only, 2: any special value
   int zero_coord_from = 0;
+  // incremental cases: how a single parameter may be changed while all others keep their values (nullptr: default_delta_kind)
+  //   0 leave alone, 1 independent fresh draw, 2 shrink (x U(-1,1): amplitude of a positive field), 3 grow (x U(1,1.5): dominating offset)
+  int (*delta_kind)(const Sol&, const std::string& name) = nullptr;
+  // magnitude stretch: 0 none, 1 field groups + wave numbers + lengths + whitelisted positive constants, 2 lengths + constants only
+  int stretch = 0;
 };
 int default_special_ok(const std::string& name);
 void specialise(vh::Rng& r, const Sol& s, Draw& d, const std::vector<std::string>& names, std::string& what);
+int default_delta_kind(const Sol& s, const std::string& name);
+inline int delta_kind_of(const Sol& s, const std::string& n) { return s.delta_kind ? s.delta_kind(s, n) : default_delta_kind(s, n); }
+// scales groups of parameters by powers of ten without leaving the admissible set; returns a description ("" = nothing done)
+void stretch_draw(vh::Rng& r, const Sol& s, Draw& d, const std::vector<std::string>& names, std::string& what);
 
 const std::vector<Sol>& registry();
 const Sol* find(const std::string& name);
